@@ -18,7 +18,8 @@ BOUNDS = dict(
                weights="complete sets of linearly independent shells (harness-selected, shortest first) of 6 concrete lattices (sc, fcc, bcc, hexagonal, orthorhombic, triclinic), also with the last shell dropped, with every shell stretched by a symbolic factor, or one fully symbolic +-b shell; "
                        "LAPACK svd output = unconstrained fresh atoms u, s, vh (one-shell sets: sc, fcc, bcc) or u=1, s=1, vh fresh, which still reaches every weight vector (all sets); bk_complete_tol symbolic in [1e-8,1e-3]",
                shells="6 lattices x meshes (1,1,1),(2,2,2),(2,2,1)/(3,2,1): kmesh_tol symbolic in [1e-9,1e-5]",
-               object="__init__: symbolic 3x3 reciprocal lattice and weights, meshes 2x3x4, 3x1x2; from_kpoints: mono/tric/hex 2x3x4, fcc 3x2x2, bcc 2x2x3, mono 3x3x2, seeded k-point order, symbolic kmesh_tol",
+               object="__init__: symbolic 3x3 reciprocal lattice and weights, meshes 2x3x4, 3x1x2; from_kpoints: mono/tric/hex 2x3x4, fcc 3x2x2, bcc 2x2x3, mono 3x3x2, and 2D / 1D / Gamma-only meshes (5x3x1, 1x6x1, 4x1x1, 3x2x1, 1x3x2, 1x4x1, 1x1x1) on three strongly sheared, "
+                      "non-reduced cells and the triclinic one; seeded k-point order, symbolic kmesh_tol",
                nnkp="from_nnkp: hex 1x1x1 / ortho 2x2x1 / fcc 2x2x2 with every transposition of the shell-ordered neighbour list, sc 2x3x4 with every rotation, hex 2x2x1 and mono 2x3x4 seeded shuffles; other k-points listed in seeded orders"),
     thorough=dict(neighbours="meshes up to 4x3x2, 2 b's x 2 k's up to 6 points", weights="as quick, up to 4 shells", shells="as quick plus (3,3,3),(4,4,2)"))
 EXPLANATION = ("(a) The real find_G_and_neighbours runs on a k-point list whose order is a symbolic permutation of the mesh and on symbolic integer b-vectors; z3 (linear integer "
@@ -27,7 +28,7 @@ EXPLANATION = ("(a) The real find_G_and_neighbours runs on a k-point list whose 
                "||sum_b w_b b b^T - 1|| <= bk_complete_tol, wk is constant on each shell, rows of bk_cart/bk_grid stay paired. "
                "(c) The real k_to_shells / find_bk_vectors run on concrete lattices with a symbolic kmesh_tol: shells are whole (all mesh vectors of one length), closed under b->-b, "
                "weights equal on +-b, completeness holds. (d) The real BKVectors.__init__ runs on a fully symbolic reciprocal lattice (bk_cart must equal bk_grid.(recip_lattice[i]/mp_grid[i]) identically), "
-               "and the whole from_kpoints pipeline builds the object on anisotropic meshes of monoclinic/triclinic/hexagonal/fcc/bcc lattices: the object's own bk_cart, wk, bk_grid, G, neighbours "
+               "and the whole from_kpoints pipeline builds the object on anisotropic meshes of monoclinic/triclinic/hexagonal/fcc/bcc lattices and on 2D/1D/Gamma-only meshes of strongly sheared non-reduced cells (shells at the edge of the search box): the object's own bk_cart, wk, bk_grid, G, neighbours "
                "must satisfy completeness, image, closure, whole shells and the neighbour identity. (e) The real BKVectors.from_nnkp reads a .nnkp text written by the harness (in-memory file) "
                "whose neighbour list is the shell order with a symbolic transposition / rotation (z3 integers) or a seeded shuffle, with symbolic kmesh_tol; same obligations on the object, "
                "plus bk_grid / neighbours / G in the order of the file.")
@@ -344,7 +345,10 @@ class SvdStub(LinalgProxy):
 LATTICES = dict(
     sc=np.eye(3) * 1.7, fcc=np.array([[-1, 0, 1], [0, 1, 1], [-1, 1, 0]]) * 1.1, bcc=np.array([[1, 1, -1], [-1, 1, 1], [1, -1, 1]]) * 0.9,
     hex=np.array([[1, 0, 0], [-0.5, math.sqrt(3) / 2, 0], [0, 0, 1.6]]) * 1.3, ortho=np.diag([1.0, 1.3, 1.9]),
-    tric=np.array([[1.0, 0.1, 0.2], [0.15, 1.2, -0.1], [0.05, 0.3, 1.5]]), mono=np.array([[1.0, 0.0, 0.0], [0.0, 1.2, 0.0], [0.45, 0.0, 1.5]]))
+    tric=np.array([[1.0, 0.1, 0.2], [0.15, 1.2, -0.1], [0.05, 0.3, 1.5]]), mono=np.array([[1.0, 0.0, 0.0], [0.0, 1.2, 0.0], [0.45, 0.0, 1.5]]),
+    # strongly sheared, non-reduced cells (large off-diagonal components): short mesh vectors reach the edge of the search box
+    shear=np.array([[1.0, 0.0, 0.0], [0.0, 1.1, 0.0], [0.5, 0.0, 0.2]]) * 1.4, shear2=np.array([[1.0, 0.3, 0.0], [0.9, 0.5, 0.0], [0.4, 0.45, 0.3]]),
+    skew=np.array([[0.94, 0.77, 0.73], [0.19, 0.57, 0.08], [0.92, 0.80, 0.53]]))
 
 
 def concrete_shells(name, mesh, nshell):
@@ -723,6 +727,12 @@ def cases(tier, seed):
     for name, mesh in [("mono", (2, 3, 4)), ("tric", (2, 3, 4)), ("hex", (2, 3, 4)), ("fcc", (3, 2, 2)), ("bcc", (2, 2, 3)), ("mono", (3, 3, 2))] + \
             ([] if q else [("tric", (4, 3, 2)), ("hex", (3, 2, 5)), ("sc", (2, 3, 4)), ("ortho", (4, 2, 3)), ("mono", (3, 3, 4))]):
         out.append(Case(f"object: BKVectors.from_kpoints lattice={name} anisotropic mesh={mesh} symbolic kmesh_tol", case_object, dict(name=name, mesh=mesh, seed=seed), timeout=1500))
+    # 2D / 1D / Gamma-only meshes (N3 = 1, N1 = 1, N2 = 1) on sheared, non-reduced cells: shells that reach the edge of the search box
+    low = [("shear", (5, 3, 1)), ("shear", (1, 1, 1)), ("shear", (1, 6, 1)), ("shear2", (4, 1, 1)), ("shear2", (3, 2, 1)), ("skew", (1, 1, 1)), ("skew", (1, 3, 2)), ("tric", (1, 4, 1))]
+    if not q:
+        low += [("shear", (5, 1, 1)), ("shear", (1, 1, 4)), ("shear2", (1, 1, 1)), ("shear2", (1, 5, 1)), ("skew", (5, 3, 1)), ("skew", (2, 1, 1)), ("mono", (1, 1, 6)), ("hex", (6, 1, 1)), ("fcc", (1, 1, 1))]
+    for name, mesh in low:
+        out.append(Case(f"object: BKVectors.from_kpoints lattice={name} low-dimensional mesh={mesh} symbolic kmesh_tol", case_object, dict(name=name, mesh=mesh, seed=seed), timeout=1500))
     nn = [("hex", (1, 1, 1), "swap"), ("ortho", (2, 2, 1), "swap"), ("sc", (2, 3, 4), "rotate"), ("hex", (2, 2, 1), "shuffle"), ("mono", (2, 3, 4), "shuffle"), ("fcc", (2, 2, 2), "swap")]
     if not q:
         nn += [("tric", (1, 1, 1), "swap"), ("mono", (2, 3, 4), "swap"), ("hex", (2, 3, 4), "rotate"), ("ortho", (1, 1, 1), "rotate"), ("tric", (2, 3, 4), "shuffle"), ("bcc", (2, 2, 3), "swap")]
